@@ -51,6 +51,7 @@ def gen_tree(seed, kind, plus=None):
         d = rng.choice(["", "", "src", "src/deep", "lib", "docs"])
         expr = tag if rng.random() < 0.7 else rng.choice(["%s OR MIT", "MIT AND %s", "(%s)"]) % tag
         files["%spf%d.py" % (d + "/" if d else "", j)] = "# SPDX-FileCopyrightText: 2020 Jane Doe\n# SPDX-License-Identifier: %s\n" % expr
+    _add_near_duplicate_notices(files, seed, kind)
     if kind in TOML_KINDS:
         odd = [rng.choice(ODD_LOW), rng.choice(ODD_LOW + ODD_HIGH + ODD_HIGH)]
         r = rng.random()
@@ -79,6 +80,100 @@ def gen_tree(seed, kind, plus=None):
                     'SPDX-FileCopyrightText = "2014 Odd %d"\nSPDX-License-Identifier = "%s"\n'
                     % (i, lic, i, lic, rng.choice(["closest", "aggregate", "override"]), i, lic))
     return name, files
+
+
+# notices that are the same up to letter case / runs of blanks / a trailing dot: each is a notice of its own in every output
+NEAR_DUPLICATES = [
+    ("2021 ACME Inc.", "2021 Acme Inc.", "2021 acme inc."),
+    ("2020 Example GmbH", "2020 EXAMPLE GmbH"),
+    ("2019 Jane  Doe <jane@example.com>", "2019 Jane Doe <jane@example.com>", "2019 Jane Doe  <JANE@example.com>"),
+    ("2018 The Foo Authors", "2018 the foo authors", "2018 The  Foo  Authors"),
+    ("2017 \u00c9cole Polytechnique", "2017 \u00e9cole polytechnique", "2017 \u00c9COLE POLYTECHNIQUE"),
+    ("2016 Stra\u00dfe AG", "2016 STRASSE AG", "2016 Strasse AG"),
+]
+
+
+def _add_near_duplicate_notices(files, seed, kind):
+    """two to four files (a header, a .license sibling of a binary, in REUSE.toml trees a list value of one table, in dep5 trees
+    one Copyright field) that carry, IN ONE SOURCE, two or three notices equal up to case / inner blanks: which of them a run
+    prints must not depend on anything (they live in a set inside the tool)"""
+    rng = random.Random("c14-tree-dups:%s:%s" % (seed, kind))
+    groups = rng.sample(NEAR_DUPLICATES, 3)
+    g = list(groups[0][:rng.randint(2, 3)])
+    rng.shuffle(g)
+    d = rng.choice(["", "src/", "docs/", "lib/"])
+    files[d + "dup_header.py"] = "".join("# SPDX-FileCopyrightText: %s\n" % n for n in g) + "# SPDX-License-Identifier: MIT\n\nx = 1\n"
+    g = list(groups[1][:rng.randint(2, 3)])
+    rng.shuffle(g)
+    d = rng.choice(["", "src/", "src/deep/", "lib/"])
+    files[d + "dup_logo.png"] = b"\x89PNG\r\n\x1a\n\x00\x00\x00dup"
+    files[d + "dup_logo.png.license"] = "".join("SPDX-FileCopyrightText: %s\n" % n for n in g) + "SPDX-License-Identifier: MIT\n"
+    g = list(groups[2][:rng.randint(2, 3)])
+    rng.shuffle(g)
+    if kind in TOML_KINDS:
+        # an own directory with an own REUSE.toml: the outer tables say nothing about *.dat
+        files["dupcfg/data.dat"] = "1 2 3\n"
+        files["dupcfg/more.dat"] = "# SPDX-FileCopyrightText: %s\n4 5 6\n" % g[0]
+        files["dupcfg/REUSE.toml"] = ('version = 1\n\n[[annotations]]\npath = "*.dat"\nprecedence = "%s"\nSPDX-FileCopyrightText = [%s]\n'
+                                      'SPDX-License-Identifier = "MIT"\n' % (rng.choice(["closest", "aggregate", "override"]),
+                                                                             ", ".join(json.dumps(n) for n in g)))
+    elif kind == "dep5" and ".reuse/dep5" in files:
+        files["dup5/data.dat"] = "1 2 3\n"
+        files[".reuse/dep5"] += "\nFiles: dup5/*\nCopyright: %s\nLicense: MIT\n" % "\n ".join(g)
+    else:
+        files["dup_both.c"] = "/*\n" + "".join(" * Copyright (C) %s\n" % n for n in g) + " * SPDX-License-Identifier: MIT\n */\n"
+    return files
+
+
+def gen_links(seed, kind, files):
+    """-> ([(existing regular file, new name of the same inode)], {further files to write}): hard links.  One to two covered
+    files get one or two more names in other directories (existing ones, among them directories with an own REUSE.toml, and new
+    ones); for every inode one of its names — not all — has (or gets) a .license sibling, so that the names differ in their REUSE
+    information; in REUSE.toml trees an inner REUSE.toml is now and then hard-linked into a new directory that holds files
+    without information.  Every name is a regular file and a covered file of its own: each must have its own report whatever
+    the order in which the walk meets the names."""
+    rng = random.Random("c14-links:%s:%s" % (seed, kind))
+    def usable(p):
+        parts = p.split("/")
+        return (not p.startswith(("LICENSES/", ".reuse/")) and "subprojects" not in parts[:-1] and not p.endswith(".license")
+                and parts[-1] != "REUSE.toml" and len(files[p]) > 0)
+    cands = sorted(p for p in files if usable(p))
+    dirs = sorted({os.path.dirname(p) for p in cands}) + ["img", "doc/figures", "zz last", "0first"]
+    links, extra = [], {}
+    taken = set(files)
+    for n, src in enumerate(rng.sample(cands, min(len(cands), rng.randint(1, 2)))):
+        names = [src]
+        stem, ext = os.path.splitext(os.path.basename(src))
+        for j in range(rng.randint(1, 2)):
+            d = rng.choice([x for x in dirs if x != os.path.dirname(src)])
+            dst = (d + "/" if d else "") + rng.choice([os.path.basename(src), "%s_ln%d%s" % (stem, j, ext), "ln%d%d%s" % (n, j, ext or ".txt")])
+            if dst in taken:
+                continue
+            taken.add(dst)
+            links.append((src, dst))
+            names.append(dst)
+        if len(names) > 1 and not any(x + ".license" in files for x in names):
+            # one name of the inode gets a side-car, the others do not
+            x = rng.choice(names)
+            if x + ".license" not in taken:
+                extra[x + ".license"] = "SPDX-FileCopyrightText: 2023 Linked Sidecar\nSPDX-License-Identifier: MIT\n"
+                taken.add(x + ".license")
+    inner = sorted(p for p in files if p.endswith("/REUSE.toml") and p.count("/") <= 2 and 'path = "**"' in files[p])
+    if kind in TOML_KINDS and inner and rng.random() < 0.6:
+        src = rng.choice(inner)
+        d = rng.choice(["linkcfg", "0linkcfg", "zz linkcfg", os.path.dirname(src) + "-twin"])
+        if not any(p.startswith(d + "/") for p in taken):
+            links.append((src, d + "/REUSE.toml"))
+            extra[d + "/plain.dat"] = "no information here\n"
+            extra[d + "/deep/plain2.dat"] = "no information here either\n"
+    return links, extra
+
+
+def make_links(root, links):
+    for src, dst in links:
+        full = os.path.join(root, dst)
+        os.makedirs(os.path.dirname(full), exist_ok=True)
+        os.link(os.path.join(root, src), full)
 
 
 def _gen_tree_base(seed, kind):
